@@ -647,6 +647,7 @@ func main() {
 	runFamily("QR (MARGIN 0: the padding is the only quiet zone)", withMargin(qrSpecs(), 0), true)
 	runFamily("Data Matrix (writer draws no quiet zone)", dmSpecs(), false)
 	runFamily("1-D, nine symbologies, heights {20,60}, writer default margin (UPC-E 14)", oneDSpecs([]int{20, 60}, -1), false)
+	runCropped()
 	reportTable()
 	chk.Finish()
 }
